@@ -130,8 +130,8 @@ Proof. intros Hi. cbn [set_slot pool]. apply nth_error_upd_eq. eapply nth_error_
 
 Lemma push_step w m i s w' r :
   WF w -> Valid s -> s <> [] -> exec w (OPushStr m i s) = (w', OkUnit) ->
-  nth_error (pool w) i = Some (Some r) -> exclusive (heap (wmem w)) r ->
-  exists r', nth_error (pool w') i = Some (Some r') /\ WF w' /\ exclusive (heap (wmem w')) r'
+  nth_error (pool w) i = Some (Some r) -> xcl (wmem w) r ->
+  exists r', nth_error (pool w') i = Some (Some r') /\ WF w' /\ xcl (wmem w') r'
     /\ forall k cp,
        let st' := gstep {| gl := repr_len r; gc := cap_of (wmem w) r; gk := k; gcp := cp |} (len s) in
        repr_len r' = gl st' /\ cap_of (wmem w') r' = gc st' /\ nreq (wmem w') + N.of_nat k = nreq (wmem w) + N.of_nat (gk st').
@@ -140,7 +140,7 @@ Proof.
   destruct (on_result_live _ _ _ _ _ r (op_push_str w m i s w' _ HW Hv He) Hi) as (r' & Ew & (ok & HP & Eo) & HW' & _ & Hso).
   assert (ok = true) as -> by (destruct m, ok; cbn in Eo; congruence).
   exists r'. split; [rewrite Ew; eapply slot_after; eauto|]. split; [exact HW'|].
-  split; [exact (pp_excl _ _ _ _ _ _ _ HP eq_refl Hne)|].
+  split; [split; [eapply same_env_quiet; [exact (so_env _ _ _ _ _ Hso)|exact (proj1 Hex)]|exact (pp_excl _ _ _ _ _ _ _ HP eq_refl Hne)]|].
   assert (Hlen : repr_len r' = repr_len r + len s).
   { rewrite <- (text_len (wmem w') r' (so_h _ _ _ _ _ Hso)), (pp_ok _ _ _ _ _ _ _ HP eq_refl).
     unfold len. rewrite app_length. fold (len (text_of (wmem w) r)).
@@ -159,9 +159,9 @@ Definition push_ops (m : mode) (i : nat) (pieces : list (list N)) : list op := m
 (* every history of successful non-empty appends to an exclusively owned slot follows gsim exactly *)
 Theorem push_loop_model m i pieces : forall w r w' outs,
   WF w -> Forall (fun s => Valid s /\ s <> []) pieces ->
-  nth_error (pool w) i = Some (Some r) -> exclusive (heap (wmem w)) r ->
+  nth_error (pool w) i = Some (Some r) -> xcl (wmem w) r ->
   execs w (push_ops m i pieces) = (w', outs) -> Forall (fun o => o = OkUnit) outs ->
-  exists r', nth_error (pool w') i = Some (Some r') /\ WF w' /\ exclusive (heap (wmem w')) r'
+  exists r', nth_error (pool w') i = Some (Some r') /\ WF w' /\ xcl (wmem w') r'
     /\ let st := gsim {| gl := repr_len r; gc := cap_of (wmem w) r; gk := 0; gcp := 0 |} (map len pieces) in
        repr_len r' = gl st /\ cap_of (wmem w') r' = gc st /\ nreq (wmem w') = nreq (wmem w) + N.of_nat (gk st).
 Proof.
@@ -187,7 +187,7 @@ Qed.
 (* the two together: the property's amortisation claim for the modelled crate *)
 Theorem push_loop_cost m i pieces w r w' outs r' :
   WF w -> Forall (fun s => Valid s /\ s <> []) pieces ->
-  nth_error (pool w) i = Some (Some r) -> exclusive (heap (wmem w)) r ->
+  nth_error (pool w) i = Some (Some r) -> xcl (wmem w) r ->
   execs w (push_ops m i pieces) = (w', outs) -> Forall (fun o => o = OkUnit) outs ->
   nth_error (pool w') i = Some (Some r') ->
   let k := N.to_nat (nreq (wmem w') - nreq (wmem w)) in
